@@ -112,7 +112,9 @@ def rand_comment(rng, allow_nonascii=True):
         elif k == 3:
             body_parts.append("(")
         elif k == 4:
-            body_parts.append("* ")
+            # stars inside the body, alone and in runs, followed by a blank or directly by text (seed C08m: a comment pattern
+            # that no longer takes two adjacent stars in the middle of a comment, as in commented-out  x ** 2)
+            body_parts.append(rng.choice(["* ", "* ", "** ", "**x", "*** ", "*x", " x ** 2; "]))
         elif k == 5:
             body_parts.append(" x := 1; ")
         elif k == 6:
